@@ -17,13 +17,46 @@ use crate::units::{self, Si};
 
 pub struct C18;
 
-pub const QUERIES: [&str; 6] = [
+pub const QUERIES: [&str; 9] = [
     "2 * (3 + 4)",
     "mercury mass",
     "earth mass / mercury mass",
     "round(earth diameter / mercury diameter, 2)",
     "earth mass + 1 s",
     "mercury diameter to mi",
+    // a single word that several constants carry (Mass/Diameter/... of Mars), the full word set of
+    // one of them, and a query with several results one of which fails after a lookup
+    "mars",
+    "mars diameter",
+    "(2 * earth mass) (mars mass + mars diameter) (mercury mass)",
+];
+const NOPS: usize = QUERIES.len() * 2;
+
+/// Per worker: every operation's observation on two independent fresh databases.
+/// "In isolation" is only well defined where the two agree (otherwise the
+/// difference is C14's subject, not C18's).
+fn isolation(env: &mut Env) -> &'static Vec<(String, String)> {
+    static BASE: std::sync::OnceLock<Vec<(String, String)>> = std::sync::OnceLock::new();
+    BASE.get_or_init(|| {
+        let (a, b) = (env.fresh_db(), env.fresh_db());
+        (0..NOPS).map(|op| (observe(&a, QUERIES[op / 2], op % 2 == 1), observe(&b, QUERIES[op / 2], op % 2 == 1))).collect()
+    })
+}
+
+/// multi-result family: (text, phrases in source order, prescribed error?)
+const MULTI_A: [(&str, &[&str], bool); 5] = [
+    ("2 * mercury mass", &["mercury mass"], false),
+    ("earth mass / mercury mass", &["earth mass", "mercury mass"], false),
+    ("mercury mass", &["mercury mass"], false),
+    ("earth mass + 1 s", &["earth mass"], true),
+    ("mercury mass / 0", &["mercury mass"], true),
+];
+const MULTI_B: [(&str, &[&str], bool); 5] = [
+    ("2 * mercury diameter", &["mercury diameter"], false),
+    ("population finland", &["population finland"], false),
+    ("mercury diameter + 1 s", &["mercury diameter"], true),
+    ("population finland / 0", &["population finland"], true),
+    ("1 / 0", &[], true),
 ];
 
 const PHRASES: [&str; 4] = ["mercury mass", "earth mass", "mercury diameter", "population finland"];
@@ -89,7 +122,7 @@ impl Prop for C18 {
         false
     }
     fn rule(&self) -> String {
-        "histories: all sequences of length <=3 (thorough <=4) over 12 operations (6 queries: literal-only, one fact, two facts, facts inside a function call, an error after a lookup, a cast of a fact; each with descriptions off/on), each history executed on one shared Db instance that also served all earlier histories of the worker; after every step the operation's observation (values, error text+range, descriptions) must equal its observation on a fresh Db, and describe on/off must give the same values. expressions: all trees with <=3 operands over {2, 0.5, 4 fact phrases} x {+ - * /} with explicit grouping; value with describe = value without = reference evaluation with the described constants substituted; descriptions = the phrases as written, one per phrase occurrence, in the evaluation order inferred from the two-phrase expressions. Non-trivial = the history/expression contains at least one fact lookup; distinct = distinct histories/expressions".into()
+        "histories: all sequences of length <=3 (thorough <=4) over 18 operations (9 queries: literal-only, one fact, two facts, facts inside a function call, an error after a lookup, a cast of a fact, a single word carried by several constants, the full word set of one of those, a three-result query whose middle expression fails after a lookup; each with descriptions off/on; a history is judged only if each of its operations answers identically on two independent fresh databases), each history executed on one shared Db instance that also served all earlier histories of the worker; after every step the operation's observation (values, error text+range, descriptions) must equal its observation on a fresh Db, and describe on/off must give the same values. multi-result queries: (A) (B), (B) (A), (A) (B) (A') over 5+5 expressions with disjoint phrase sets (values, failing after a lookup, failing without one): the phrases of every computed result must be reported, in order, whatever fails before or after it. expressions: all trees with <=3 operands over {2, 0.5, 4 fact phrases} x {+ - * /} with explicit grouping; value with describe = value without = reference evaluation with the described constants substituted; descriptions = the phrases as written, one per phrase occurrence, in the evaluation order inferred from the two-phrase expressions. Non-trivial = the history/expression contains at least one fact lookup; distinct = distinct histories/expressions".into()
     }
     fn assumptions(&self) -> Vec<String> {
         vec![
@@ -98,7 +131,7 @@ impl Prop for C18 {
         ]
     }
     fn generate(&self, tier: Tier, sink: &mut dyn FnMut(Case)) {
-        let nops = 12usize;
+        let nops = NOPS;
         let maxlen = tier.pick(3, 4);
         for len in 1..=maxlen {
             let mut idx = vec![0usize; len];
@@ -117,6 +150,16 @@ impl Prop for C18 {
                 }
                 if done {
                     break;
+                }
+            }
+        }
+        // multi-result queries: (A) (B), (B) (A), (A) (B) (A') with disjoint phrase sets
+        for a in 0..MULTI_A.len() {
+            for b in 0..MULTI_B.len() {
+                sink(Case::new("multi", format!("AB:{a},{b}")));
+                sink(Case::new("multi", format!("BA:{a},{b}")));
+                for c in 0..MULTI_A.len() {
+                    sink(Case::new("multi", format!("ABA:{a},{b},{c}")));
                 }
             }
         }
@@ -142,6 +185,11 @@ impl Prop for C18 {
     fn check(&self, env: &mut Env, case: &Case) -> Verdict {
         if case.fam == "history" {
             let ops: Vec<usize> = case.key.split(',').map(|s| s.parse().unwrap()).collect();
+            // "in isolation" must be well defined for every operation of the history
+            let iso = isolation(env);
+            if ops.iter().any(|op| iso[*op].0 != iso[*op].1) {
+                return Verdict::DontCare("an operation answers differently on two fresh databases (C14's subject)");
+            }
             // baseline: every operation on a fresh Db (one fresh Db per history)
             let fresh = env.fresh_db();
             let mut obs_hash = 0u64;
@@ -150,7 +198,7 @@ impl Prop for C18 {
                 let (q, describe) = (QUERIES[op / 2], op % 2 == 1);
                 let here = observe(env.db(), q, describe);
                 let alone = observe(&fresh, q, describe);
-                if here != alone {
+                if here != alone && alone == iso[*op].0 {
                     return fw::fail(
                         format!("history-dependence:op{op}"),
                         format!("after {:?} the operation `{q}` (describe={describe}) answers {here}; in isolation it answers {alone}", &ops[..step]),
@@ -165,7 +213,7 @@ impl Prop for C18 {
                 }
                 // canonical state = answers of the whole probe set in this state
                 let mut state = String::new();
-                for p in 0..12 {
+                for p in 0..NOPS {
                     state.push_str(&observe(env.db(), QUERIES[p / 2], p % 2 == 1));
                     state.push('\n');
                 }
@@ -175,8 +223,74 @@ impl Prop for C18 {
                 state_before = state;
                 obs_hash = obs_hash.wrapping_mul(31).wrapping_add(fw::hash_str(&here));
             }
-            env.bulk_evals += (ops.len() as u64) * 14;
+            env.bulk_evals += (ops.len() as u64) * (NOPS as u64 + 2);
             return fw::pass(ops.iter().any(|o| o / 2 != 0), fw::hash_str(&state_before));
+        }
+        if case.fam == "multi" {
+            let (kind, rest) = case.key.split_once(':').unwrap();
+            let n: Vec<usize> = rest.split(',').map(|x| x.parse().unwrap()).collect();
+            let parts: Vec<(&str, &[&str], bool)> = match kind {
+                "AB" => vec![MULTI_A[n[0]], MULTI_B[n[1]]],
+                "BA" => vec![MULTI_B[n[1]], MULTI_A[n[0]]],
+                _ => vec![MULTI_A[n[0]], MULTI_B[n[1]], MULTI_A[n[2]]],
+            };
+            let q = parts.iter().map(|p| format!("({})", p.0)).collect::<Vec<_>>().join(" ");
+            let (on, off) = match (obs::eval_described(env.db(), &q, true), obs::eval_described(env.db(), &q, false)) {
+                (Some(a), Some(b)) => (a, b),
+                _ => return fw::fail("parse", format!("{q}: parse failed")),
+            };
+            let show = |rs: &Vec<Res>| rs.iter().map(|r| r.short()).collect::<Vec<_>>().join("; ");
+            if show(&on.results) != show(&off.results) {
+                return fw::fail("describe-changes-value", format!("{q}: with descriptions {} / without {}", show(&on.results), show(&off.results)));
+            }
+            if !off.descriptions.is_empty() {
+                return fw::fail("descriptions-when-off", format!("{q}: descriptions reported although not asked for"));
+            }
+            if on.results.len() != parts.len() {
+                return fw::fail("multi-results", format!("{q}: {} results for {} expressions", on.results.len(), parts.len()));
+            }
+            // order discipline inside one expression, as shown by the tool on a two-phrase product
+            let probe = format!("{} * {}", PHRASES[0], PHRASES[1]);
+            let right_first = obs::eval_described(env.db(), &probe, true).map(|d| d.descriptions.first().map(|x| x.0 == PHRASES[1]).unwrap_or(true)).unwrap_or(true);
+            let got: Vec<String> = on.descriptions.iter().map(|d| d.0.clone()).collect();
+            let mut pos = 0usize;
+            for (i, (text, phrases, err)) in parts.iter().enumerate() {
+                match (&on.results[i], err) {
+                    (Res::Ok { .. }, true) => return fw::fail("error-expected", format!("{q}: expression #{i} `{text}` must be an error")),
+                    (Res::Err { msg, .. }, false) => return fw::fail("value", format!("{q}: expression #{i} `{text}` failed: {msg}")),
+                    (Res::Ok { .. }, false) => {
+                        // every phrase of a result that was computed is reported, in the tool's own discipline
+                        let mut want: Vec<String> = phrases.iter().map(|p| p.to_string()).collect();
+                        if right_first {
+                            want.reverse();
+                        }
+                        if got.len() < pos + want.len() || got[pos..pos + want.len()] != want[..] {
+                            return fw::fail(
+                                "multi-description-missing",
+                                format!("{q}: result #{i} `{text}` was computed from {want:?}, but the descriptions are {got:?} (expected them at position {pos})"),
+                            );
+                        }
+                        pos += want.len();
+                    }
+                    (Res::Err { .. }, true) => {
+                        // phrases looked up before the failure may or may not be reported
+                        let mut left: Vec<&str> = phrases.to_vec();
+                        while pos < got.len() {
+                            match left.iter().position(|p| *p == got[pos]) {
+                                Some(k) => {
+                                    left.remove(k);
+                                    pos += 1;
+                                }
+                                None => break,
+                            }
+                        }
+                    }
+                }
+            }
+            if pos != got.len() {
+                return fw::fail("multi-description-extra", format!("{q}: descriptions {got:?} contain entries that belong to no expression (matched {pos})"));
+            }
+            return fw::pass(true, fw::hash_str(&format!("{got:?}")));
         }
         // expressions
         let db_si: Vec<Option<Si>> = PHRASES.iter().map(|p| phrase_si(env.db(), p)).collect();
@@ -284,14 +398,16 @@ impl Prop for C18 {
     }
     fn bounds(&self, tier: Tier) -> serde_json::Value {
         let l = tier.pick(3u32, 4u32);
-        let histories: u64 = (1..=l).map(|k| 12u64.pow(k)).sum();
+        let nops = NOPS as u64;
+        let histories: u64 = (1..=l).map(|k| nops.pow(k)).sum();
         serde_json::json!({
-            "operations": 12, "history_length_max": l,
+            "operations": nops, "history_length_max": l,
             // every history is one explored path; the canonical state is the
             // probe-set answer vector, which the invariant requires to stay the
             // initial one, so the reachable canonical state space is 1 state.
             "states": 1,
-            "transitions": (1..=l).map(|k| (k as u64) * 12u64.pow(k)).sum::<u64>(),
+            "transitions": (1..=l).map(|k| (k as u64) * nops.pow(k)).sum::<u64>(),
+            "multi_result_queries": 2 * MULTI_A.len() * MULTI_B.len() + MULTI_A.len() * MULTI_B.len() * MULTI_A.len(),
             "traces_validated_against_impl": histories,
             "expression_operands_max": 3,
         })
